@@ -51,6 +51,9 @@ def resolveWith (v : Rat) : List (Option Rat) → List Rat
   | some w :: r => w :: resolveWith v r
   | none :: r => v :: resolveWith v r
 
+/-- pr.Max -/
+def maxR (a b : Rat) : Rat := if a < b then b else a
+
 def FixedIn.numColumns (i : FixedIn) : Nat := max i.cols.length (sumNat (i.first.map (·.1)))
 
 /-- the loop "`width` on cells of the first row"; `i` is the running column index -/
@@ -61,7 +64,7 @@ def firstRowPass (sx : Rat) : Nat → List (Nat × Option Rat) → List (Option 
     let seg := (cw.drop i).take cs
     let width := bw - sx * ((cs : Rat) - 1) - knownSum seg
     let cw' := if unknowns seg ≠ 0 then
-        cw.take i ++ fillNone (width / (unknowns seg : Rat)) seg ++ cw.drop (i + cs)
+        cw.take i ++ fillNone (maxR 0 (width / (unknowns seg : Rat))) seg ++ cw.drop (i + cs)
       else cw
     firstRowPass sx (i + cs) r cw'
 
@@ -151,21 +154,31 @@ structure RRow where
   cells : List RCell
   deriving Repr
 
-/-- a cell waiting for its last row: rows still to go after the current one, its top, its height -/
+/-- a cell waiting for its last row: rows still to go after the current one; where it started
+    (row index in the group, rowspan as used, top) and its height -/
 structure Pending where
   left : Nat
   id : Nat
+  row : Nat
+  span : Nat
   y : Rat
   bh : Rat
   deriving Repr
 
-structure ROut where
-  rows : List (Rat × Rat)          -- (row.PositionY, row.Height) per row
-  cells : List (Nat × Rat × Rat)   -- (id, cell.PositionY, final cell.BorderHeight()) in order of completion
-  endY : Rat                       -- positionY after the last row (includes the trailing spacing)
-  deriving Repr
+/-- a cell whose last row has been laid out -/
+structure RDone where
+  id : Nat
+  row : Nat      -- index of its first row in the group
+  span : Nat     -- number of rows it covers
+  y : Rat        -- cell.PositionY
+  bh : Rat       -- final cell.BorderHeight()
+  deriving Repr, DecidableEq
 
-def maxR (a b : Rat) : Rat := if a < b then b else a
+structure ROut where
+  rows : List (Rat × Rat)   -- (row.PositionY, row.Height) per row
+  cells : List RDone        -- in order of completion
+  endY : Rat                -- positionY after the last row (includes the trailing spacing)
+  deriving Repr
 
 /-- max over the ending cells, starting from `init` (`var rowBottomY pr.Float` starts at 0) -/
 def maxBottom (init : Rat) : List Pending → Rat
@@ -176,32 +189,35 @@ def maxHeight (init : Rat) : List Pending → Rat
   | [] => init
   | p :: r => maxHeight (maxR init p.bh) r
 
-/-- the row loop; `pend` = cells of earlier rows that have not ended yet (`endingCellsByRow[k]`
-    for k ≥ 1, flattened with their remaining row count).  Rowspans pointing beyond the group
-    would index out of range in Go: wrapTable clips them, the model keeps them pending for ever. -/
-def rowLoop (sy : Rat) : Rat → List Pending → List RRow → ROut
-  | y, _, [] => { rows := [], cells := [], endY := y }
-  | y, pend, row :: rest =>
-    let all := pend ++ row.cells.map (fun c => { left := c.rs - 1, id := c.id, y := y, bh := c.bh : Pending })
+/-- row.Height of the current row at `y`, given the cells ending in it -/
+def rowHeight (y : Rat) (height : Option Rat) (ending : List Pending) : Rat :=
+  if ending.isEmpty then 0
+  else match height with
+    | none => maxR (maxBottom 0 ending - y) 0
+    | some h => maxR h (maxHeight 0 ending)
+
+/-- the row loop; `k` = index of the current row, `pend` = cells of earlier rows that have not ended
+    yet (`endingCellsByRow[j]` for j ≥ 1, flattened with their remaining row count).  Rowspans
+    pointing beyond the group would index out of range in Go: wrapTable clips them, the model keeps
+    them pending for ever.
+    rowBottomY: in every branch of the code it is `row.PositionY + row.Height` (empty: `rowBottomY =
+    row.PositionY`, height 0; auto: reassigned after the max; fixed: `row.PositionY + row.Height`). -/
+def rowLoop (sy : Rat) : Nat → Rat → List Pending → List RRow → ROut
+  | _, y, _, [] => { rows := [], cells := [], endY := y }
+  | k, y, pend, row :: rest =>
+    let all := pend ++ row.cells.map (fun c =>
+      { left := c.rs - 1, id := c.id, row := k, span := c.rs - 1 + 1, y := y, bh := c.bh : Pending })
     let ending := all.filter (·.left = 0)
     let later := (all.filter (·.left ≠ 0)).map (fun p => { p with left := p.left - 1 })
-    -- rowBottomY and row.Height
-    let (bottom, height) : Rat × Rat :=
-      if ending.isEmpty then (y, 0)
-      else match row.height with
-        | none =>
-          let b := maxBottom 0 ending
-          (b, maxR (b - y) 0)
-        | some h =>
-          let hh := maxR h (maxHeight 0 ending)
-          (y + hh, hh)
-    -- "Add extra padding to make the cells the same height as the row": the cell's bottom becomes
-    -- rowBottomY (extra may be negative: then padding is *removed*, as in the code)
-    let done := ending.map (fun p => (p.id, p.y, p.bh + (bottom - (p.y + p.bh))))
-    let o := rowLoop sy (y + height + sy) later rest
+    let height := rowHeight y row.height ending
+    let bottom := y + height
+    -- "Add extra padding to make the cells the same height as the row": the cell's bottom becomes rowBottomY
+    let done := ending.map (fun p =>
+      { id := p.id, row := p.row, span := p.span, y := p.y, bh := p.bh + (bottom - (p.y + p.bh)) : RDone })
+    let o := rowLoop sy (k + 1) (y + height + sy) later rest
     { rows := (y, height) :: o.rows, cells := done ++ o.cells, endY := o.endY }
 
 /-- one row group starting at `y` -/
-def rowPass (sy y : Rat) (rows : List RRow) : ROut := rowLoop sy y [] rows
+def rowPass (sy y : Rat) (rows : List RRow) : ROut := rowLoop sy 0 y [] rows
 
 end WR.C13
